@@ -121,6 +121,14 @@ fn bad(acc: &mut Acc, ty: &str, op: &str, x: i128, exp: String, obs: String) {
 }
 
 fn check_u64(x: u64, do_json: bool, acc: &mut Acc) {
+    for a in U53_ANCHORS {
+        let v = U53::try_from(a).expect("anchor in range");
+        acc.ops += 1;
+        let want = a.cmp(&x);
+        if v.partial_cmp(&x) != Some(want) || (v == x) != (a == x) || (v < x) != (a < x) || (v > x) != (a > x) || (v >= x) != (a >= x) {
+            bad(acc, "U53", "compare_with_u64", x as i128, format!("anchor {} {:?} operand", near(a as i128), want), format!("{:?}", v.partial_cmp(&x)));
+        }
+    }
     acc.values += 1;
     if x.abs_diff(U53_HI) <= radius() {
         acc.nontrivial += 1;
@@ -195,7 +203,19 @@ fn check_u64(x: u64, do_json: bool, acc: &mut Acc) {
     }
 }
 
+/// in-range anchors compared with every enumerated wide integer, in or out of range (heterogeneous ==, <, >, partial_cmp)
+const I54_ANCHORS: [i64; 9] = [I54_LO, I54_LO + 1, -4294967296, -1, 0, 1, 4294967296, I54_HI - 1, I54_HI];
+const U53_ANCHORS: [u64; 6] = [0, 1, 4294967296, U53_HI - 1, U53_HI, 255];
+
 fn check_i64(x: i64, do_json: bool, acc: &mut Acc) {
+    for a in I54_ANCHORS {
+        let v = I54::try_from(a).expect("anchor in range");
+        acc.ops += 1;
+        let want = a.cmp(&x);
+        if v.partial_cmp(&x) != Some(want) || (v == x) != (a == x) || (v < x) != (a < x) || (v > x) != (a > x) || (v <= x) != (a <= x) {
+            bad(acc, "I54", "compare_with_i64", x as i128, format!("anchor {} {:?} operand", near(a as i128), want), format!("{:?}", v.partial_cmp(&x)));
+        }
+    }
     acc.values += 1;
     if x.abs_diff(I54_HI) <= radius() || x.abs_diff(I54_LO) <= radius() {
         acc.nontrivial += 1;
